@@ -543,3 +543,24 @@ free piece:
 +--------+-------+-------------+-----------------------------------+
 ```
 */
+
+// verification hook: the slot size decision of write_piece, without I/O.
+#[cfg(feature = "verif_hooks")]
+pub(crate) fn verif_sweep_value_slot_sizes(
+    max_len: usize,
+    func: &mut dyn FnMut(usize, u32, u32, u32),
+) {
+    let piece_mgr = PieceMgr::new(&REC_SIZE_FREE_OFFSET, &REC_SIZE_ARY);
+    let mut piece = ValuePiece::with_value(&vec![0u8; max_len]);
+    loop {
+        let (encorded_piece_len, piece_len, _value_len) = piece.encoded_piece_size();
+        let new_piece_size =
+            piece_mgr.roundup(ValuePieceSize::new(encorded_piece_len + piece_len));
+        let len = piece.value.len();
+        func(len, encorded_piece_len, piece_len, new_piece_size.as_value());
+        if len == 0 {
+            break;
+        }
+        piece.value.truncate(len - 1);
+    }
+}
